@@ -1,5 +1,10 @@
 // @append-to: src/redis/data/list.rs
-// Kani harnesses for RedisList::{range, get, set, trim} (C01) against a specification written from
+// @debug-assertions: off
+// (debug assertions off: RedisList::set / rpush compare `to_string()` renderings inside cfg(debug_assertions) blocks;
+//  that formatting code alone keeps CBMC busy for > 6 min on a 1-element list.  The release build has none of it.)
+// NOT REACHED by Kani: RedisList::trim.  `iter().skip().take().cloned().collect::<VecDeque<_>>()` did not finish
+// in 15 min (cadical) / 5 min (kissat) even for a 1-element list, with debug assertions off.  No trim harness is kept.
+// Kani harnesses for RedisList::{range, get, set} (C01) against a specification written from
 // the Redis command documentation, NOT from the code:
 //   LRANGE/LTRIM: "offsets are zero-based ... can also be negative numbers indicating offsets starting at
 //     the end of the list (-1 is the last element) ... Out of range indexes will not produce an error. If
@@ -99,22 +104,6 @@ mod verif_kani_list {
         std::mem::forget(res);
         std::mem::forget(l);
     }
-    fn check_trim(n: usize, start: isize, stop: isize) {
-        let mut l = mk(n);
-        l.trim(start, stop);
-        match spec_window(n, start, stop) {
-            None => assert!(l.is_empty()),
-            Some((s, e)) => {
-                assert!(l.len() == e - s + 1);
-                let mut k = 0;
-                while k < l.len() {
-                    assert!(tag(&l.items[k]) as usize == s + k);
-                    k += 1;
-                }
-            }
-        }
-        std::mem::forget(l);
-    }
 
     // @harness: list_get_matches_lindex
     // @bound: list length <= 4 (symbolic); index over all of isize; unwind 6
@@ -171,7 +160,7 @@ mod verif_kani_list {
 
     // @harness: list_range_len3
     // @bound: LRANGE on the list of length 3; start, stop over all of isize; unwind 6
-    // @tier: quick
+    // @tier: thorough
     // @complete: false
     #[kani::proof]
     #[kani::unwind(6)]
@@ -184,7 +173,7 @@ mod verif_kani_list {
 
     // @harness: list_range_len4
     // @bound: LRANGE on the list of length 4; start, stop over all of isize; unwind 6
-    // @tier: thorough
+    // @tier: quick
     // @complete: false
     #[kani::proof]
     #[kani::unwind(6)]
@@ -195,74 +184,14 @@ mod verif_kani_list {
         kani::cover!(start == 0 && stop == -1);
     }
 
-    // @harness: list_trim_len0
-    // @bound: LTRIM on the list of length 0; start, stop over all of isize; unwind 6
-    // @tier: thorough
-    // @complete: false
-    #[kani::proof]
-    #[kani::unwind(6)]
-    fn list_trim_len0() {
-        let start: isize = kani::any();
-        let stop: isize = kani::any();
-        check_trim(0, start, stop);
-        kani::cover!(start == 0 && stop == -1);
-    }
 
-    // @harness: list_trim_len1
-    // @bound: LTRIM on the list of length 1; start, stop over all of isize; unwind 6
-    // @tier: thorough
-    // @complete: false
-    #[kani::proof]
-    #[kani::unwind(6)]
-    fn list_trim_len1() {
-        let start: isize = kani::any();
-        let stop: isize = kani::any();
-        check_trim(1, start, stop);
-        kani::cover!(start == 0 && stop == -1);
-    }
 
-    // @harness: list_trim_len2
-    // @bound: LTRIM on the list of length 2; start, stop over all of isize; unwind 6
-    // @tier: thorough
-    // @complete: false
-    #[kani::proof]
-    #[kani::unwind(6)]
-    fn list_trim_len2() {
-        let start: isize = kani::any();
-        let stop: isize = kani::any();
-        check_trim(2, start, stop);
-        kani::cover!(start == 0 && stop == -1);
-    }
 
-    // @harness: list_trim_len3
-    // @bound: LTRIM on the list of length 3; start, stop over all of isize; unwind 6
-    // @tier: quick
-    // @complete: false
-    #[kani::proof]
-    #[kani::unwind(6)]
-    fn list_trim_len3() {
-        let start: isize = kani::any();
-        let stop: isize = kani::any();
-        check_trim(3, start, stop);
-        kani::cover!(start == 0 && stop == -1);
-    }
 
-    // @harness: list_trim_len4
-    // @bound: LTRIM on the list of length 4; start, stop over all of isize; unwind 6
-    // @tier: thorough
-    // @complete: false
-    #[kani::proof]
-    #[kani::unwind(6)]
-    fn list_trim_len4() {
-        let start: isize = kani::any();
-        let stop: isize = kani::any();
-        check_trim(4, start, stop);
-        kani::cover!(start == 0 && stop == -1);
-    }
 
     // @harness: list_set_len1
     // @bound: LSET on the list of length 1; index over all of isize; unwind 6
-    // @tier: thorough
+    // @tier: quick
     // @complete: false
     #[kani::proof]
     #[kani::unwind(6)]
@@ -274,7 +203,7 @@ mod verif_kani_list {
 
     // @harness: list_set_len2
     // @bound: LSET on the list of length 2; index over all of isize; unwind 6
-    // @tier: thorough
+    // @tier: quick
     // @complete: false
     #[kani::proof]
     #[kani::unwind(6)]
@@ -298,7 +227,7 @@ mod verif_kani_list {
 
     // @harness: list_set_len4
     // @bound: LSET on the list of length 4; index over all of isize; unwind 6
-    // @tier: thorough
+    // @tier: quick
     // @complete: false
     #[kani::proof]
     #[kani::unwind(6)]
